@@ -526,6 +526,20 @@ let run_case line =
              (String.concat "," (List.map (fun c -> string_of_int (int_of_z c)) (x_p_cnts s)))
              (String.concat "," (List.map (fun b -> if b then "1" else "0") (x_p_acts s)))
        | None -> Printf.sprintf "NONE states=%d%s" !count (if !count > limit then " state-limit-reached" else ""))
+  | "inj" :: cap :: ops ->
+      let cap = (match ios cap with 1 | 2 | 3 | 4 as c -> c | _ -> 128) in
+      let op_of tok =
+        let k = String.sub tok 0 1 and rest = String.sub tok 1 (String.length tok - 1) in
+        (match k with
+         | "i" -> JInsert (z_of_int (ios rest))
+         | "b" -> JPushBucket (List.map (fun x -> z_of_int (ios x)) (List.filter (fun x -> x <> "") (split_on '.' rest)))
+         | "p" -> JPop | "e" -> JIsEmpty | _ -> failwith "inj op") in
+      let (_, rs) = inj_run (nat_of_int cap) inj_new (List.map op_of ops) in
+      String.concat " " (List.map (fun r -> match r with
+        | JUnit -> "u"
+        | JBucket None -> "-"
+        | JBucket (Some b) -> "[" ^ String.concat "." (List.map (fun x -> string_of_int (int_of_z x)) b) ^ "]"
+        | JBool b -> if b then "1" else "0") rs)
   | "crw" :: ops ->
       let op_of tok = match split_on ',' tok with
         | ["c"; i] -> CClone (nat_of_int (ios i))
